@@ -169,4 +169,19 @@ TEXT = {
         "technique": "Lean 4 proof (parser relation + generator invariant through the C01 refinement) + strict-build "
                      "differential replay",
     },
+    "C16": {
+        "level": "Proof over the visitor-event model: serialize hands the serializer exactly the 'T1' text (human-"
+                 "readable) or the binary form as bytes (ser_spec); de(ser(h)) = h for both kinds (de_ser); "
+                 "deserialization returns Ok(h) iff the matching parser (text with auto-detected prefix / binary) "
+                 "returns Ok(h), every other event kind is an error (de_ok_iff_parser_ok); it never panics for any "
+                 "event, flag, configuration incl. strict (de_total) given the translator-extracted fact that the "
+                 "bytes visitor does not unwrap (source_does_not_unwrap) — on the pinned tree that obligation "
+                 "failed and the check produced the replay (bytes ff..ff in the strict build); fixed in /repo "
+                 "dd39dd2; the old behaviour is kept as unwrap_counterexample / de_total_partial. Correspondence: "
+                 "scripted Deserializer events x human_readable x {serde, serde+strict, serde-buffered}; "
+                 "serde_json/ciborium/postcard round trips and malformed documents.",
+        "note": COMMON_NOTE + " serde default Visitor methods by contract; format crates exercised, not modelled.",
+        "technique": "Lean 4 proof over a visitor-event model (composed from C04/C05/C06) + scripted-deserializer "
+                     "and real-format differential replay",
+    },
 }
